@@ -714,6 +714,11 @@ func byteMutants(p *scripted) []hostilePkt {
 }
 
 func propC03(j *Job) {
+	for _, il := range []bool{false, true} {
+		for _, what := range []string{"stale-fwd", "abort"} {
+			j.Explore(fmt.Sprintf("AT/il%v/%s", il, what), ackTimerRaceScenario(il, what), Budget{D: 2}, nil)
+		}
+	}
 	bases := e2Bases()
 	// size of the alphabets (state independent count): build once against a dummy
 	dummy := &scripted{ssn: map[uint16]uint16{}, mid: map[uint16]uint32{}, tsn0: 5, aTSN0: 9}
@@ -784,5 +789,70 @@ func propC03(j *Job) {
 				return
 			}
 		}
+	}
+}
+
+// ackTimerRaceScenario: a packet whose handling touches the delayed-acknowledgement timer (an
+// out-of-date FORWARD-TSN is answered at once: the timer is stopped; an ABORT closes it) arrives
+// in the very instant that timer expires.  Under every schedule with at most D deviations
+// the endpoint handles both and stays responsive (no hang between the read loop, which holds
+// the association lock, and the timer's callback).
+func ackTimerRaceScenario(il bool, what string) *Scenario {
+	return &Scenario{
+		Name:    "ack-timer-race",
+		Horizon: 60 * time.Second,
+		Setup:   func(m *Sim) { m.W.delay = [2]time.Duration{time.Millisecond, time.Millisecond} },
+		Body: func(m *Sim) {
+			cfg := epCfg{NoInterleave: !il, MTU: 228, RTOMax: 4000, InitTSN: 0xFFFFFFF5}
+			p := newScripted(m, cfg, il, false)
+			if !p.connectClient() {
+				m.Failf("e2.base", "handshake with the scripted peer failed")
+				c03Teardown(m, p)
+				return
+			}
+			p.a = m.As[0]
+			rs := p.startReader(1)
+			_ = rs
+			m.Sleep(2 * time.Second)
+			// one DATA chunk: the acknowledgement is delayed by 200 ms
+			seq := uint32(p.ssn[1])
+			if p.il {
+				seq = p.mid[1]
+			}
+			m.W.inject(0, p.pkt(p.dataChunk(p.tsn, 1, seq, 0, 53, 3, []byte("one"), 0)))
+			p.tsn++
+			m.Sleep(200 * time.Millisecond)
+			switch what {
+			case "stale-fwd":
+				if p.il {
+					m.W.inject(0, p.pkt(chunkBytes(wIFWDTSN, 0, wIFwdVal(p.tsn-5, nil))))
+				} else {
+					m.W.inject(0, p.pkt(chunkBytes(wFWDTSN, 0, wFwdVal(p.tsn-5, nil))))
+				}
+			case "abort":
+				m.W.inject(0, p.pkt(chunkBytes(wABORT, 0, nil)))
+			}
+			p.settle(2 * time.Second)
+			if what == "stale-fwd" {
+				// still responsive: a heartbeat is answered
+				out := p.inject(p.pkt(chunkBytes(wHEARTBEAT, 0, wTLVBytes(1, []byte("12345678"), true))))
+				ok := false
+				for _, o := range out {
+					if o.dec != nil {
+						for _, c := range o.dec.Chunks {
+							if c.Typ == wHBACK {
+								ok = true
+							}
+						}
+					}
+				}
+				if !ok {
+					m.Failf("hostile.hang", "after an out-of-date FORWARD-TSN that arrived as the delayed-acknowledgement timer expired the endpoint does not answer a HEARTBEAT any more")
+				}
+			}
+			m.Observe("%s", what)
+			c03Teardown(m, p)
+		},
+		Final: func(m *Sim, x *Exec) { generalVerdicts(m, x, true) },
 	}
 }
